@@ -113,6 +113,9 @@ def run(ctx):
     T3 = [("array", t) for t in r.sample(compound, min(len(compound), 60 * k))] + \
          [("option", t) for t in r.sample(compound, min(len(compound), 40 * k))] + \
          [("tuple", (a, b, c)) for a, b, c in [tuple(r.sample(T, 3)) for _ in range(60 * k)]]
+    # every tuple arity has its own ToString implementation: arity 4 in the quick tier too
+    T3 += [("tuple", tuple(r.sample(T, 4))) for _ in range(40)]
+    T3 += [("tuple", tuple(r.choice(["int", "bool", "string", "void"]) for _ in range(4))) for _ in range(40)]
     if not ctx.quick:
         T3 += [("result", a, b) for a, b in [tuple(r.sample(T, 2)) for _ in range(600)]]
         T3 += [("tuple", tuple(r.sample(T, 4))) for _ in range(400)]
